@@ -685,9 +685,59 @@ def run_global_case(case):
     return {'executions': want, 'reported': got, 'count_after': gp._profile.enable_count}
 
 
+THREAD_SRC = '''\
+import threading
+
+@profile
+def inner(n):
+    t = 0
+    for i in range(n):
+        t += i
+    return t
+
+@profile
+def inner_gen(n):
+    for i in range(n):
+        yield i
+
+class Box:
+    @profile
+    def run(self, n):
+        th = threading.Thread(target=inner, args=(n,))
+        th.start()
+        th.join()
+        return list(inner_gen(n))
+
+@profile
+def outer(n):
+    th = threading.Thread(target=lambda: (inner(n), list(inner_gen(n))))
+    th.start()
+    th.join()
+    return inner(1)
+'''
+
+
+def run_thread_case(case):
+    """a decorated callable used in another thread while the thread that started it is itself inside a decorated callable"""
+    prof = line_profiler.LineProfiler()
+    ns = {'profile': prof, '__name__': 'thread_case'}
+    exec(compile(THREAD_SRC, 'thread_case.py', 'exec'), ns)
+    n, k = case['n'], case['calls']
+    for _ in range(k):
+        ns['outer'](n)
+        ns['Box']().run(n)
+    # executions of each function's last line (the return / the last yield-loop line)
+    want = {'outer': k, 'run': k, 'inner': 3 * k, 'inner_gen': 2 * k * (n + 1)}
+    got = {}
+    for (fname, first, name), entries in prof.get_stats().timings.items():
+        if entries:
+            got[name] = max(entries)[1] if name != 'inner_gen' else min(entries)[1]
+    return {'executions': want, 'reported': got, 'count_after': prof.enable_count}
+
+
 def main():
     payload = json.load(sys.stdin)
-    res = {'gens': [], 'towers': [], 'copies': [], 'globals': []}
+    res = {'gens': [], 'towers': [], 'copies': [], 'globals': [], 'threads': []}
     import warnings
     warnings.simplefilter('ignore')
     for c in payload.get('gens', []):
@@ -702,6 +752,12 @@ def main():
         except Exception:
             import traceback
             res['towers'].append({'error': traceback.format_exc()})
+    for c in payload.get('threads', []):
+        try:
+            res['threads'].append(run_thread_case(c))
+        except Exception:
+            import traceback
+            res['threads'].append({'error': traceback.format_exc()})
     for c in payload.get('globals', []):
         try:
             res['globals'].append(run_global_case(c))
